@@ -4,3 +4,9 @@ From Coq Require Import PrimFloat.
 Record wcase := WC { w_y : list float; w_l : float; w_w : list float; w_out : list float }.
 Definition check_ws2d (c : wcase) : bool :=
   flist_eq_bits (ws2d (OpsF no_oracles) (w_y c) (w_l c) (w_w c)) (w_out c).
+
+(** exact instance against the source executed on fractions.Fraction *)
+From Coq Require Import QArith.
+From HDC Require Import Base.OpsQ.
+Record qcase := QC { q_y : list Q; q_l : Q; q_w : list Q; q_out : list Q }.
+Definition check_ws2d_q (c : qcase) : bool := qlist_eqb (ws2d OpsQ (q_y c) (q_l c) (q_w c)) (q_out c).
